@@ -246,12 +246,19 @@ func facts(f *hc.Facts) {
 // scripted race
 
 const (
-	outOK   = 0
-	outFail = 1
-	outHS   = 2 // dial succeeds, the transport handshake (header write) fails
+	outOK    = 0
+	outFail  = 1
+	outHS    = 2 // dial succeeds, the transport handshake (header write) fails
+	outObOK  = 3 // obfuscated-only DC option (valid secret): dial and obfuscation handshake succeed
+	outObSec = 4 // obfuscated-only DC option whose secret is rejected after the dial succeeded
+	outObHS  = 5 // obfuscated-only DC option: dial succeeds, the obfuscation handshake write fails
+	outHS2   = 6 // like hs, and Close of the broken connection fails too (one dial, a two-part error)
+	outFail2 = 7 // the dial function itself returns a two-part error
 )
 
-var outNames = []string{"ok", "fail", "hs"}
+var outNames = []string{"ok", "fail", "hs", "obok", "obsec", "obhs", "hs2", "fail2"}
+
+func isOK(o int) bool { return o == outOK || o == outObOK }
 
 type script struct {
 	n      int
@@ -293,13 +300,10 @@ func parseScript(line string) (script, error) {
 		return s, fmt.Errorf("bad n")
 	}
 	for _, w := range strings.Split(kv["out"], ",") {
-		switch w {
-		case "ok":
-			s.out = append(s.out, outOK)
-		case "fail":
-			s.out = append(s.out, outFail)
-		case "hs":
-			s.out = append(s.out, outHS)
+		for code, name := range outNames {
+			if w == name {
+				s.out = append(s.out, code)
+			}
 		}
 	}
 	for _, w := range strings.Split(kv["aware"], ",") {
@@ -352,6 +356,7 @@ type fakeConn struct {
 	r        *race
 	i        int
 	hs       bool
+	closeErr bool // Close reports an error
 	mu       sync.Mutex
 	closed   int
 	harness  bool // the harness is closing the returned connection itself
@@ -383,6 +388,9 @@ func (c *fakeConn) Close() error {
 		} else {
 			c.r.ev("close", c.i)
 		}
+	}
+	if c.closeErr {
+		return &dialErr{c.i, "close of the broken connection failed"}
 	}
 	return nil
 }
@@ -417,8 +425,12 @@ func (r *race) dial(ctx context.Context, network, addr string) (net.Conn, error)
 	case outFail:
 		r.ev("fail", i)
 		return nil, &dialErr{i, "refused"}
-	case outHS:
-		c := &fakeConn{r: r, i: i, hs: true}
+	case outFail2:
+		r.ev("fail", i)
+		return nil, multierr.Combine(&dialErr{i, "refused"}, &dialErr{i, "fallback route unreachable"})
+	case outHS, outObSec, outObHS, outHS2:
+		// (obsec: nothing is ever written, the DC option's secret is rejected right after the dial)
+		c := &fakeConn{r: r, i: i, hs: true, closeErr: r.s.out[i] == outHS2}
 		r.mu.Lock()
 		r.conns[i] = c
 		r.mu.Unlock()
@@ -475,7 +487,14 @@ func runScript(s script) outcome {
 	res := dcs.Plain(dcs.PlainOptions{Dial: r.dial, Protocol: transport.Intermediate})
 	var list dcs.List
 	for i := 0; i < s.n; i++ {
-		list.Options = append(list.Options, tg.DCOption{ID: 2, IPAddress: "10.0.0.1", Port: 1000 + i})
+		opt := tg.DCOption{ID: 2, IPAddress: "10.0.0.1", Port: 1000 + i}
+		switch s.out[i] {
+		case outObOK, outObHS:
+			opt.TCPObfuscatedOnly, opt.Secret = true, make([]byte, 16)
+		case outObSec:
+			opt.TCPObfuscatedOnly, opt.Secret = true, []byte(fmt.Sprintf("b%d", i)) // too short: rejected; names its dialer
+		}
+		list.Options = append(list.Options, opt)
 	}
 	ctx, cancel := context.WithCancel(context.Background())
 	defer cancel()
@@ -580,7 +599,7 @@ func runScript(s script) outcome {
 			slowFailures.Add(1)
 			fail("conn-leak", fmt.Sprintf("connection of dialer %d (%s) is still open long after connect returned and every dial finished (watchdog 30s, shortened after repeated failures; winner=%d)", i, outNames[s.out[i]], winner))
 		}
-		if s.out[i] == outOK {
+		if isOK(s.out[i]) {
 			anyOK = true
 		}
 		if c != nil && c.lateUsed {
@@ -607,24 +626,35 @@ func runScript(s script) outcome {
 			fail("spurious-cancel", "connect returned context.Canceled although the caller never cancelled")
 		}
 	default:
+		// one dial may contribute several errors (a handshake error plus the error of closing the broken
+		// connection; a dial function that returns a combined error): count failed dialers, not errors
 		errs := multierr.Errors(got.err)
 		seen := map[int]int{}
 		for _, e := range errs {
-			if de := asDialErr(e); de != nil {
-				seen[de.i]++
-				errOrder = append(errOrder, de.i)
+			if di, ok := errDialer(e); ok {
+				if seen[di] == 0 {
+					errOrder = append(errOrder, di)
+				}
+				seen[di]++
 			} else {
 				fail("foreign-error", "combined error contains an error that no dial produced: "+e.Error())
 			}
 		}
-		coll = fmt.Sprintf("fail:%d", len(errs))
+		coll = fmt.Sprintf("fail:%d", len(seen))
 		out.branch = "all-failed"
-		if len(errs) != s.n {
-			fail("error-not-all", fmt.Sprintf("error returned combining %d failures, but %d addresses were dialed", len(errs), s.n))
+		if len(seen) != s.n {
+			fail("error-not-all", fmt.Sprintf("error returned combining the failures of %d dialers, but %d addresses were dialed", len(seen), s.n))
 		}
 		for i := 0; i < s.n; i++ {
-			if seen[i] != 1 && len(errs) == s.n {
-				fail("error-not-all", fmt.Sprintf("failure of dialer %d appears %d times in the combined error", i, seen[i]))
+			parts := 1
+			if s.out[i] == outHS2 || s.out[i] == outFail2 {
+				parts = 2
+			}
+			if conns[i] == nil && s.out[i] != outFail2 {
+				parts = 1 // the dial ended with the context's error before its scripted outcome
+			}
+			if seen[i] != parts && len(seen) == s.n {
+				fail("error-not-all", fmt.Sprintf("failure of dialer %d appears %d times in the combined error (expected %d)", i, seen[i], parts))
 			}
 			if conns[i] != nil && !conns[i].hs {
 				fail("error-despite-success", fmt.Sprintf("connect returned an error although dial %d succeeded", i))
@@ -721,6 +751,24 @@ func (r *race) snapshotConns() []*fakeConn {
 	return append([]*fakeConn(nil), r.conns...)
 }
 
+// errDialer attributes one part of the combined error to the dialer that produced it: the fake's own
+// errors carry the index, the rejection of an obfuscated-only option's secret quotes the secret "b<i>".
+func errDialer(err error) (int, bool) {
+	if de := asDialErr(err); de != nil {
+		return de.i, true
+	}
+	const mark = "invalid secret \"b"
+	if t := err.Error(); strings.Contains(t, mark) {
+		t = t[strings.Index(t, mark)+len(mark):]
+		if j := strings.IndexByte(t, '"'); j > 0 {
+			if v, e := strconv.Atoi(t[:j]); e == nil {
+				return v, true
+			}
+		}
+	}
+	return 0, false
+}
+
 func asDialErr(err error) *dialErr {
 	var de *dialErr
 	if errors.As(err, &de) {
@@ -783,6 +831,48 @@ func exhaustive(n int, withAware bool) []script {
 	return out
 }
 
+// directed: the outcome kinds beyond ok / fail / hs (obfuscated-only DC options whose set-up fails after
+// the TCP connect, one dial that fails with a two-part error) — all vectors for n=2 with every release
+// order and caller-cancel position, and for n=3 all vectors that contain such a kind, every release order.
+func directedKinds() []script {
+	var out []script
+	kinds := len(outNames)
+	for n := 2; n <= 3; n++ {
+		total := 1
+		for i := 0; i < n; i++ {
+			total *= kinds
+		}
+		for code := 0; code < total; code++ {
+			outs := make([]int, n)
+			c, special := code, false
+			for i := range outs {
+				outs[i] = c % kinds
+				c /= kinds
+				if outs[i] > outHS {
+					special = true
+				}
+			}
+			if !special {
+				continue
+			}
+			for _, p := range permutations(n) {
+				lo, hi := -1, n
+				if n == 3 {
+					hi = -1
+				}
+				for cancel := lo; cancel <= hi; cancel++ {
+					st := make([]int, n+1)
+					for i := range st {
+						st[i] = 3
+					}
+					out = append(out, script{n: n, out: outs, aware: make([]bool, n), order: p, cancel: cancel, settle: st})
+				}
+			}
+		}
+	}
+	return out
+}
+
 func randomScript(r *hc.RNG) script {
 	n := hc.Pick(r, 2, 2, 3, 3, 4, 5, 5, r.Range(2, 8))
 	s := script{n: n, cancel: -1}
@@ -791,11 +881,11 @@ func randomScript(r *hc.RNG) script {
 	for i := 0; i < n; i++ {
 		switch {
 		case r.Chance(okPct):
-			s.out = append(s.out, outOK)
-		case r.Chance(25):
-			s.out = append(s.out, outHS)
+			s.out = append(s.out, hc.Pick(r, outOK, outOK, outOK, outObOK))
+		case r.Chance(35):
+			s.out = append(s.out, hc.Pick(r, outHS, outHS, outObSec, outObHS, outHS2))
 		default:
-			s.out = append(s.out, outFail)
+			s.out = append(s.out, hc.Pick(r, outFail, outFail, outFail, outFail2))
 		}
 		s.aware = append(s.aware, r.Chance(30))
 	}
@@ -843,6 +933,7 @@ func run(c *hc.Ctx) error {
 		if c.Thorough() {
 			scripts = append(scripts, exhaustive(4, false)...)
 		}
+		scripts = append(scripts, directedKinds()...)
 		for i, n := 0, c.N(1500, 40000); i < n; i++ {
 			scripts = append(scripts, randomScript(c.Rng))
 		}
@@ -877,7 +968,7 @@ func run(c *hc.Ctx) error {
 		}
 		nOK := 0
 		for _, x := range s.out {
-			if x == outOK {
+			if isOK(x) {
 				nOK++
 			}
 		}
@@ -893,7 +984,7 @@ func run(c *hc.Ctx) error {
 		c.Eval(in, nOK >= 2 || s.cancel >= 0 || (nOK == 0))
 		lines[i] = fmt.Sprintf("run %d %s", s.n, strings.Join(o.trace, " "))
 	}
-	c.Res.Rule = "a case is one scripted race (per dialer: success / refusal / handshake failure, whether the dial honours its context; release order; optional caller cancel position; settle mode between releases = how much real time the goroutines get to interleave); all outcome vectors x release orders x cancel positions are enumerated for n=2,3 (and n=4 in thorough), n up to 8 random; non-trivial = at least two successful dials (a loser must be closed), or no success (combined error), or a caller cancel; distinct = distinct script"
+	c.Res.Rule = "a case is one scripted race (per dialer: success / refusal / handshake failure — also through an obfuscated-only DC option: success, secret rejected after the connect, obfuscation handshake write failing — / a failure with a two-part error: handshake error plus Close error, or a combined error from the dial function; whether the dial honours its context; release order; optional caller cancel position; settle mode between releases = how much real time the goroutines get to interleave); all outcome vectors x release orders x cancel positions are enumerated for n=2,3 over ok/refusal/handshake failure (and n=4 in thorough), all 8 outcome kinds for n=2 and every vector with one of the further kinds for n=3; n up to 8 random; non-trivial = at least two successful dials (a loser must be closed), or no success (combined error), or a caller cancel; distinct = distinct script"
 	c.PartialNote("goroutine scheduling below the granularity of dial completion / channel rendezvous is exercised by real timing (settle modes), not enumerated; deliveries of failures before a winning success are unobservable and replayed as abandoned dialers (a model-valid linearisation with the same observables)")
 	ans, err := c.Drv.Batch(lines)
 	if err != nil {
